@@ -69,6 +69,11 @@ func getDistillationFunc(dm *model.DecisionMaker) *utils.LinearFunctionParameter
 	} else {
 		parameters := utils.LinearFunctionParameters{}
 		utils.DecodeToStruct(params, &parameters)
+		// the function is evaluated on credibility values from [0, 1]; a negative value there makes the distillation
+		// recurse without progress until the stack is exhausted (which kills the whole process)
+		if parameters.B < 0 || parameters.A+parameters.B < 0 {
+			panic(fmt.Errorf("electre distillation function must not be negative on [0, 1], got %v", parameters))
+		}
 		return &parameters
 	}
 }
